@@ -353,6 +353,43 @@ theorem fg_result (s : JobList) (index : Nat) (job : Job) (outcome : PState) (h 
       unfold JobList.get
       rw [remove_gets]; simp
 
+/-- ★ "If omitted, the built-in resumes the current job" (`bg.md`, `fg.md`), and an operand that is
+    a job ID resumes the job `JobId::find` returns for it: with job control on, `bg` / `fg` without
+    operands act on `current_job()`, with one job-ID operand on the job it designates -/
+theorem bg_fg_target (s : JobList) (outcome : PState) :
+    (∀ i, s.currentJob = some i →
+      (bgBuiltin s true []).2 = (bgResume s i).2 ∧ (fgBuiltin s true outcome []).2 = (fgResume s i outcome).2) ∧
+    (s.currentJob = none → (bgBuiltin s true []).2 = s ∧ (fgBuiltin s true outcome []).2 = s) ∧
+    (∀ op id i, op.head? = some '%' → parseJobId op = some id → id.find s = .ok i →
+      (bgBuiltin s true [op]).2 = (bgResume s i).2 ∧ (fgBuiltin s true outcome [op]).2 = (fgResume s i outcome).2) := by
+  refine ⟨?_, ?_, ?_⟩
+  · intro i hi
+    constructor
+    · simp only [bgBuiltin, parseArgs, hi, Bool.not_true, Bool.false_eq_true, if_false, List.isEmpty_nil, if_true]
+      cases bgResume s i with
+      | mk r s' => cases r <;> rfl
+    · simp only [fgBuiltin, parseArgs, hi, Bool.not_true, Bool.false_eq_true, if_false]
+      cases fgResume s i outcome with
+      | mk r s' => cases r <;> rfl
+  · intro hn
+    constructor
+    · simp [bgBuiltin, parseArgs, hn]
+    · simp [fgBuiltin, parseArgs, hn]
+  · intro op id i hop hid hfind
+    cases op with
+    | nil => simp at hop
+    | cons c cs =>
+      simp only [List.head?_cons, Option.some.injEq] at hop
+      subst hop
+      constructor
+      · simp only [bgBuiltin, parseArgs_percent, Bool.not_true, Bool.false_eq_true, if_false, List.isEmpty_cons,
+          bgLoop, bgResumeId, hid, hfind]
+        cases bgResume s i with
+        | mk r s' => cases r <;> rfl
+      · simp only [fgBuiltin, parseArgs_percent, Bool.not_true, Bool.false_eq_true, if_false, hid, hfind]
+        cases fgResume s i outcome with
+        | mk r s' => cases r <;> rfl
+
 /-! ### `cmd &` -/
 
 /-- ★ after `name &` with child `pid` (fresh, or the pid of a finished job): `$!` is `pid`, and
